@@ -330,4 +330,10 @@ def main(tier):
     c09_arrays.r9_8(prog, chk)
     c09_arrays.r9_9(prog, chk)
     c09_arrays.r9_10(prog, chk)
+    import c09_more
+    c09_more.r9_11(prog, chk)
+    c09_more.r9_12(prog, chk)
+    c09_more.r9_13(prog, chk)
+    c09_more.r9_14(prog, chk)
+    c09_more.r9_15(prog, chk)
     return chk.finish()
